@@ -64,16 +64,16 @@ structure AW where
   refund : Nat
   logs : Nat → List (Nat × Addr × Nat)
   logSize : Nat
-  alAddrs : List Addr
-  alSlots : List (Addr × Key)
+  alAddrs : Addr → Nat            -- how often the address is listed (0 or 1 in every reachable state)
+  alSlots : Addr × Key → Nat
 
 def absI (s : Impl) : AW :=
   { acct := s.view, refund := s.refund, logs := fun h => (alookup h s.logs).getD [], logSize := s.logSize,
-    alAddrs := s.alAddrs, alSlots := s.alSlots }
+    alAddrs := fun a => s.alAddrs.count a, alSlots := fun p => s.alSlots.count p }
 
 def absR (w : RWorld) : AW :=
   { acct := w.view, refund := w.refund, logs := fun h => (w.logs.filter (fun l => l.1 == h)).map (·.2),
-    logSize := w.logs.length, alAddrs := w.alAddrs, alSlots := w.alSlots }
+    logSize := w.logs.length, alAddrs := fun a => w.alAddrs.count a, alSlots := fun p => w.alSlots.count p }
 
 /-! ## abstract meaning of journal entries -/
 
@@ -91,8 +91,8 @@ def Entry.undo (st : Store) : Entry → AW → AW
   | .refund p, W => { W with refund := p }
   | .addLog h, W => { W with logs := updF W.logs h (W.logs h).dropLast, logSize := W.logSize - 1 }
   | .touch _, W => W
-  | .alAddr a, W => { W with alAddrs := W.alAddrs.erase a }
-  | .alSlot a k, W => { W with alSlots := W.alSlots.erase (a, k) }
+  | .alAddr a, W => { W with alAddrs := updF W.alAddrs a (W.alAddrs a - 1) }
+  | .alSlot a k, W => { W with alSlots := updF W.alSlots (a, k) (W.alSlots (a, k) - 1) }
 
 /-- undo a list of entries, most recent first -/
 def undoAbs (st : Store) : List Entry → AW → AW
@@ -104,6 +104,143 @@ theorem undoAbs_append (st : Store) (l1 l2 : List Entry) (W : AW) :
   induction l1 generalizing W with
   | nil => rfl
   | cons e t ih => simp [undoAbs, ih]
+
+/-! ## every journal entry can be undone: its account (log) is there when its turn comes -/
+
+def EntryLive (W : AW) : Entry → Prop
+  | .balance a _ => (W.acct a).isSome
+  | .nonce a _ => (W.acct a).isSome
+  | .storage a _ _ => (W.acct a).isSome
+  | .code a _ _ => (W.acct a).isSome
+  | .addLog h => W.logs h ≠ []
+  | _ => True
+
+/-- entries most recent first -/
+def JOK (st : Store) : AW → List Entry → Prop
+  | _, [] => True
+  | W, e :: rest => EntryLive W e ∧ JOK st (e.undo st W) rest
+
+theorem JOK_append (st : Store) (l1 l2 : List Entry) (W : AW) :
+    JOK st W (l1 ++ l2) ↔ JOK st W l1 ∧ JOK st (undoAbs st l1 W) l2 := by
+  induction l1 generalizing W with
+  | nil => simp [JOK, undoAbs]
+  | cons e t ih => simp [JOK, undoAbs, ih, and_assoc]
+
+/-! ## the dirty counters count the live journal entries -/
+
+def cntOf (es : List Entry) (a : Addr) : Nat := (es.filterMap Entry.dirtied).count a
+
+def JCnt (j : Journal) : Prop :=
+  ∀ a, alookup a j.dirties = if cntOf j.entries a = 0 then none else some (cntOf j.entries a)
+
+theorem cntOf_snoc (pre : List Entry) (e : Entry) (a : Addr) :
+    cntOf (pre ++ [e]) a = cntOf pre a + (if e.dirtied = some a then 1 else 0) := by
+  simp only [cntOf, List.filterMap_append, List.count_append]
+  cases hd : e.dirtied with
+  | none => simp [List.filterMap, hd]
+  | some b =>
+    by_cases hb : b = a
+    · subst hb; simp [List.filterMap, hd]
+    · simp [List.filterMap, hd, hb]
+
+theorem JCnt.new : JCnt Journal.new := by intro a; simp [Journal.new, cntOf, alookup]
+
+theorem JCnt.getDirty {j : Journal} (h : JCnt j) (a : Addr) : j.getDirty a = cntOf j.entries a := by
+  unfold Journal.getDirty
+  rw [h a]
+  by_cases hz : cntOf j.entries a = 0 <;> simp [hz]
+
+theorem JCnt.addDirty {j : Journal} (es' : List Entry) (b : Addr)
+    (hcnt : ∀ a, cntOf es' a = cntOf j.entries a + (if b = a then 1 else 0)) (h : JCnt j) :
+    JCnt { (j.addDirty b) with entries := es' } := by
+  intro a
+  show alookup a (upsert j.dirties b (j.getDirty b + 1)) = _
+  rw [alookup_upsert, hcnt a]
+  by_cases hb : a = b
+  · subst hb
+    simp [h.getDirty a]
+  · have hb' : ¬ b = a := fun e => hb e.symm
+    simp only [hb, hb', if_false, Nat.add_zero]
+    exact h a
+
+theorem JCnt.append {j : Journal} (h : JCnt j) (e : Entry) : JCnt (j.append e) := by
+  unfold Journal.append
+  cases hd : e.dirtied with
+  | none =>
+    intro a
+    show alookup a j.dirties = _
+    simp only [cntOf_snoc, hd, reduceCtorEq, if_false, Nat.add_zero]
+    exact h a
+  | some b =>
+    have := JCnt.addDirty (j := j) (j.entries ++ [e]) b (by intro a; rw [cntOf_snoc, hd]; simp) h
+    exact this
+
+theorem JCnt.pop {j : Journal} (h : JCnt j) (pre : List Entry) (e : Entry) (hsplit : j.entries = pre ++ [e]) :
+    JCnt { (j.undirty e) with entries := pre } := by
+  have hc : ∀ a, cntOf j.entries a = cntOf pre a + (if e.dirtied = some a then 1 else 0) := by
+    intro a; rw [hsplit, cntOf_snoc]
+  unfold Journal.undirty
+  cases hd : e.dirtied with
+  | none =>
+    intro a
+    show alookup a j.dirties = _
+    have := hc a
+    simp only [hd, reduceCtorEq, if_false, Nat.add_zero] at this
+    rw [← this]; exact h a
+  | some b =>
+    have hcb := hc b
+    simp only [hd, if_true] at hcb
+    have hlb : alookup b j.dirties = some (cntOf pre b + 1) := by
+      rw [h b, hcb]; simp
+    have hsub : j.subDirty b = { j with dirties := upsert j.dirties b (cntOf pre b) } := by
+      simp [Journal.subDirty, hlb]
+    have hget : (j.subDirty b).getDirty b = cntOf pre b := by
+      rw [hsub]; simp [Journal.getDirty]
+    simp only [hget]
+    intro a
+    have hca := hc a
+    simp only [hd, Option.some.injEq] at hca
+    by_cases hz : cntOf pre b = 0
+    · simp only [hz, if_true]
+      show alookup a (aerase (j.subDirty b).dirties b) = _
+      rw [hsub, alookup_aerase]
+      by_cases hab : a = b
+      · subst hab; simp [hz]
+      · have hba : ¬ b = a := fun e => hab e.symm
+        simp only [hab, if_false, alookup_upsert]
+        simp only [hba, if_false, Nat.add_zero] at hca
+        rw [← hca]; exact h a
+    · simp only [hz, if_false]
+      show alookup a (j.subDirty b).dirties = _
+      rw [hsub]
+      show alookup a (upsert j.dirties b (cntOf pre b)) = _
+      rw [alookup_upsert]
+      by_cases hab : a = b
+      · subst hab; simp [hz]
+      · have hba : ¬ b = a := fun e => hab e.symm
+        simp only [hab, if_false]
+        simp only [hba, if_false, Nat.add_zero] at hca
+        rw [← hca]; exact h a
+
+theorem JCnt.mem {j : Journal} (h : JCnt j) (a : Addr) (ha : a ∈ j.entries.filterMap Entry.dirtied) :
+    a ∈ j.dirties.map (·.1) := by
+  have hpos : cntOf j.entries a ≠ 0 := by
+    simp only [cntOf]
+    exact Nat.ne_of_gt (List.count_pos_iff.mpr ha)
+  have := h a
+  simp only [hpos, if_false] at this
+  exact (mem_akeys_iff_alookup j.dirties a).mpr (by simp [this])
+
+theorem JCnt.mem_iff {j : Journal} (h : JCnt j) (a : Addr) :
+    a ∈ j.dirties.map (·.1) ↔ a ∈ j.entries.filterMap Entry.dirtied := by
+  refine ⟨?_, h.mem a⟩
+  intro hm
+  have hs := (mem_akeys_iff_alookup j.dirties a).mp hm
+  rw [h a] at hs
+  by_cases hz : cntOf j.entries a = 0
+  · simp [hz] at hs
+  · simp only [cntOf] at hz
+    exact List.count_pos_iff.mp (Nat.pos_of_ne_zero hz)
 
 /-! ## invariants -/
 
@@ -117,6 +254,7 @@ structure ObjOK (st : Store) (o : Obj) : Prop where
   live : o.deleted = false
   nd : (akeys o.dirty).Nodup
   dc : o.code ≠ 0 → o.dirtyCode = true
+  dho : DirtyHasOrigin o
 
 /-- the records are sane: no empty account is stored, an absent account has no storage records,
     the code of every stored account is present -/
@@ -144,7 +282,7 @@ theorem getAccount_addr (st : Store) (a : Addr) (o : Obj) (h : st.getAccount a =
 theorem getAccount_ok (st : Store) (hs : StoreOK st) (a : Addr) (o : Obj) (h : st.getAccount a = some o) : ObjOK st o := by
   have hf := getAccount_addr st a o h
   obtain ⟨h1, h2, h3, h4, h5, _, _⟩ := hf
-  refine ⟨?_, ?_, ?_, h5, ?_, ?_⟩
+  refine ⟨?_, ?_, ?_, h5, ?_, ?_, by intro k hk; simp [h3] at hk⟩
   · intro k v hk; simp [h2] at hk
   · unfold Obj.getCode
     simp only [h4, ne_eq, not_true_eq_false, if_false]
@@ -293,28 +431,23 @@ theorem setObj_sameBut (s : Impl) (o : Obj) : SameBut s (s.setObj o) :=
 
 /-! ### journal append -/
 
+theorem append_entries (j : Journal) (e : Entry) : (j.append e).entries = j.entries ++ [e] := by
+  unfold Journal.append
+  cases e.dirtied <;> rfl
+
 theorem jappend_spec (s s1 : Impl) (e : Entry) (h : s.jappend e = some s1) :
     s1.journal.entries = s.journal.entries ++ [e] ∧ s1.objs = s.objs ∧ s1.store = s.store ∧
     s1.revisions = s.revisions ∧ s1.nextRev = s.nextRev ∧ s1.refund = s.refund ∧ s1.thash = s.thash ∧
     s1.logs = s.logs ∧ s1.logSize = s.logSize ∧ s1.alAddrs = s.alAddrs ∧ s1.alSlots = s.alSlots := by
-  unfold Impl.jappend at h
-  cases hj : s.journal.append e with
-  | none => simp [hj] at h
-  | some j =>
-    simp [hj] at h
-    subst h
-    refine ⟨?_, rfl, rfl, rfl, rfl, rfl, rfl, rfl, rfl, rfl, rfl⟩
-    unfold Journal.append at hj
-    cases hd : e.dirtied with
-    | none => simp [hd] at hj; subst hj; rfl
-    | some a =>
-      simp only [hd] at hj
-      unfold Journal.addDirty at hj
-      split at hj
-      · cases hj; rfl
-      · split at hj
-        · cases hj
-        · cases hj; rfl
+  simp only [Impl.jappend, Option.some.injEq] at h
+  subst h
+  exact ⟨append_entries _ _, rfl, rfl, rfl, rfl, rfl, rfl, rfl, rfl, rfl, rfl⟩
+
+theorem jappend_journal (s s1 : Impl) (e : Entry) (h : s.jappend e = some s1) : s1.journal = s.journal.append e := by
+  simp only [Impl.jappend, Option.some.injEq] at h
+  subst h; rfl
+
+theorem jappend_total (s : Impl) (e : Entry) : ∃ s1, s.jappend e = some s1 := ⟨_, rfl⟩
 
 theorem jappend_sameRest (s s1 : Impl) (e : Entry) (h : s.jappend e = some s1) : SameRest s s1 := by
   have hs := jappend_spec s s1 e h
@@ -337,6 +470,96 @@ theorem jappend_cinv (s s1 : Impl) (e : Entry) (h : s.jappend e = some s1) (hc :
   · intro a o ha; rw [hs.2.1] at ha; rw [hs.2.2.1]; exact hc.objs a o ha
   · rw [hs.2.1]; exact hc.nodup
   · rw [hs.2.2.1]; exact hc.store
+
+/-! ## every dirty slot has its original value cached
+
+  `commitState` skips a dirty slot whose original value is not cached.  `SetState` caches it before
+  it makes the slot dirty; the undo of a `storageChange` writes the dirty slot of whatever object
+  stands at the address then.  `OOK` says that object has the slot's origin cached: it follows the
+  state objects through `createObject` / `resetObject` entries (`undoF`). -/
+
+/-- which original values are cached: address ↦ slot ↦ cached? -/
+def Impl.okOf (s : Impl) (a : Addr) (k : Key) : Bool :=
+  match alookup a s.objs with
+  | some o => (alookup k o.origin).isSome
+  | none => false
+
+def undoF : Entry → (Addr → Key → Bool) → (Addr → Key → Bool)
+  | .createObject a, F => updF F a (fun _ => false)
+  | .resetObject prev, F => updF F prev.addr (fun k => (alookup k prev.origin).isSome)
+  | _, F => F
+
+def EntrySupp (F : Addr → Key → Bool) : Entry → Prop
+  | .storage a k _ => F a k = true
+  | _ => True
+
+/-- entries most recent first -/
+def OOK : (Addr → Key → Bool) → List Entry → Prop
+  | _, [] => True
+  | F, e :: rest => EntrySupp F e ∧ OOK (undoF e F) rest
+
+theorem undoF_mono (e : Entry) {F F' : Addr → Key → Bool} (h : ∀ a k, F a k = true → F' a k = true) :
+    ∀ a k, undoF e F a k = true → undoF e F' a k = true := by
+  intro a k
+  cases e <;> simp only [undoF] <;> try exact h a k
+  · rename_i b; by_cases hb : a = b <;> simp [updF, hb]; exact h a k
+  · rename_i prev; by_cases hb : a = prev.addr <;> simp [updF, hb]; exact h a k
+
+theorem OOK_mono : ∀ (l : List Entry) {F F' : Addr → Key → Bool}, (∀ a k, F a k = true → F' a k = true) → OOK F l → OOK F' l
+  | [], _, _, _, _ => trivial
+  | e :: rest, F, F', h, hk => by
+    refine ⟨?_, OOK_mono rest (undoF_mono e h) hk.2⟩
+    cases e <;> try trivial
+    exact h _ _ hk.1
+
+/-- entries that neither create nor replace a state object -/
+def Entry.plain : Entry → Bool
+  | .createObject _ => false
+  | .resetObject _ => false
+  | _ => true
+
+theorem undoF_plain (e : Entry) (F : Addr → Key → Bool) (h : e.plain = true) : undoF e F = F := by
+  cases e <;> simp [Entry.plain] at h <;> rfl
+
+/-- appending plain entries whose storage entries are supported -/
+theorem OOK_plain : ∀ (el : List Entry) (F : Addr → Key → Bool) (rest : List Entry),
+    (∀ e ∈ el, e.plain = true ∧ EntrySupp F e) → OOK F rest → OOK F (el ++ rest)
+  | [], _, _, _, h => h
+  | e :: t, F, rest, hel, h => by
+    have he := hel e (by simp)
+    refine ⟨he.2, ?_⟩
+    rw [undoF_plain e F he.1]
+    exact OOK_plain t F rest (fun e' he' => hel e' (List.mem_cons_of_mem _ he')) h
+
+theorem okOf_setObj (s : Impl) (o : Obj) (b : Addr) (k : Key) :
+    (s.setObj o).okOf b k = if b = o.addr then (alookup k o.origin).isSome else s.okOf b k := by
+  simp only [Impl.okOf, Impl.setObj, alookup_upsert]
+  by_cases hb : b = o.addr <;> simp [hb]
+
+theorem okOf_cached (s : Impl) (a : Addr) (o : Obj) (k : Key) (h : alookup a s.objs = some o) :
+    s.okOf a k = (alookup k o.origin).isSome := by simp [Impl.okOf, h]
+
+theorem getObj_okOf (s s1 : Impl) (hc : CInv s) (a : Addr) (r : Option Obj) (h : s.getObj a = (s1, r)) :
+    ∀ b k, s.okOf b k = true → s1.okOf b k = true := by
+  unfold Impl.getObj at h
+  cases hl : alookup a s.objs with
+  | some o =>
+    simp only [hl] at h
+    have hd : o.deleted = false := (hc.objs a o hl).2.live
+    simp only [hd, Bool.false_eq_true, if_false] at h
+    cases h; intro b k hb; exact hb
+  | none =>
+    simp only [hl] at h
+    cases hg : s.store.getAccount a with
+    | none => simp only [hg] at h; cases h; intro b k hb; exact hb
+    | some o =>
+      simp only [hg] at h
+      cases h
+      intro b k hb
+      simp only [Impl.okOf, alookup_upsert] at hb ⊢
+      by_cases hba : b = a
+      · subst hba; simp [Impl.okOf, hl] at hb
+      · simpa [hba] using hb
 
 /-! ## the concrete revert of an entry implements its abstract meaning -/
 
@@ -364,8 +587,14 @@ theorem viewObj_setStateRaw (st : Store) (o : Obj) (k : Key) (p : Val) :
   simp only [viewObj, this]
   rfl
 
-theorem objOK_setStateRaw (st : Store) (o : Obj) (k : Key) (p : Val) (h : ObjOK st o) : ObjOK st (o.setStateRaw k p) :=
-  ⟨h.origin, h.code, h.codeEq, h.live, nodup_akeys_upsert _ _ _ h.nd, h.dc⟩
+theorem objOK_setStateRaw (st : Store) (o : Obj) (k : Key) (p : Val) (h : ObjOK st o)
+    (hk : (alookup k o.origin).isSome) : ObjOK st (o.setStateRaw k p) :=
+  ⟨h.origin, h.code, h.codeEq, h.live, nodup_akeys_upsert _ _ _ h.nd, h.dc, by
+    intro k' hk'
+    simp only [Obj.setStateRaw, alookup_upsert] at hk'
+    by_cases hkk : k' = k
+    · subst hkk; exact hk
+    · simp only [hkk, if_false] at hk'; exact h.dho k' hk'⟩
 
 /-- frame of a revert step -/
 structure RevFrame (s s' : Impl) : Prop where
@@ -374,14 +603,6 @@ structure RevFrame (s s' : Impl) : Prop where
   revisions : s'.revisions = s.revisions
   nextRev : s'.nextRev = s.nextRev
   thash : s'.thash = s.thash
-
-theorem addDirty_entries (j j' : Journal) (a : Addr) (h : j.addDirty a = some j') : j'.entries = j.entries := by
-  unfold Journal.addDirty at h
-  split at h
-  · cases h; rfl
-  · split at h
-    · cases h
-    · cases h; rfl
 
 /-- replacing the cached object at `a` by `o'` whose view is `f` of the old one -/
 theorem modObj_abs (s s1 : Impl) (hc : CInv s) (a : Addr) (o : Obj) (hg : s.getObj a = (s1, some o))
@@ -403,7 +624,7 @@ theorem revFrame_of_sameBut {s s' : Impl} (h : SameBut s s') : RevFrame s s' :=
   ⟨h.store, by rw [h.journal], h.revisions, h.nextRev, h.thash⟩
 
 theorem revertEntry_abs (s s' : Impl) (e : Entry) (hc : CInv s) (he : EntryStatic s.store e)
-    (h : s.revertEntry e = some s') :
+    (hsup : EntrySupp s.okOf e) (h : s.revertEntry e = some s') :
     CInv s' ∧ RevFrame s s' ∧ absI s' = e.undo s.store (absI s) := by
   cases e with
   | createObject a =>
@@ -460,17 +681,12 @@ theorem revertEntry_abs (s s' : Impl) (e : Entry) (hc : CInv s) (he : EntryStati
       | some o =>
         have hs := getObj_spec s hc a s1 (some o) hg
         have ho := hs.2.2.2.2 o rfl
-        cases hj : s1.journal.addDirty a with
-        | none => simp [hj] at h
-        | some j =>
-          simp only [hj, Option.map_some, Option.some.injEq] at h
-          subst h
-          have hm := modObj_abs s s1 hc a o hg { o with suicided := p, bal := pb }
-            (fun v => { v with suicided := p, bal := pb }) ho.2.1
-            ⟨ho.2.2.1.origin, ho.2.2.1.code, ho.2.2.1.codeEq, ho.2.2.1.live, ho.2.2.1.nd, ho.2.2.1.dc⟩ rfl
-          refine ⟨⟨hm.1.objs, hm.1.nodup, hm.1.store⟩, ⟨hm.2.2.store, ?_, hm.2.2.revisions, hm.2.2.nextRev, hm.2.2.thash⟩, hm.2.1⟩
-          show j.entries = s.journal.entries
-          rw [addDirty_entries _ _ _ hj, hs.2.1.journal]
+        simp only [Option.some.injEq] at h
+        subst h
+        have hm := modObj_abs s s1 hc a o hg { o with suicided := p, bal := pb }
+          (fun v => { v with suicided := p, bal := pb }) ho.2.1
+          ⟨ho.2.2.1.origin, ho.2.2.1.code, ho.2.2.1.codeEq, ho.2.2.1.live, ho.2.2.1.nd, ho.2.2.1.dc, ho.2.2.1.dho⟩ rfl
+        exact ⟨hm.1, revFrame_of_sameBut hm.2.2, hm.2.1⟩
   | balance a p =>
     simp only [Impl.revertEntry] at h
     cases hg : s.getObj a with
@@ -481,16 +697,11 @@ theorem revertEntry_abs (s s' : Impl) (e : Entry) (hc : CInv s) (he : EntryStati
       | some o =>
         have hs := getObj_spec s hc a s1 (some o) hg
         have ho := hs.2.2.2.2 o rfl
-        cases hj : s1.journal.addDirty a with
-        | none => simp [hj] at h
-        | some j =>
-          simp only [hj, Option.map_some, Option.some.injEq] at h
-          subst h
-          have hm := modObj_abs s s1 hc a o hg { o with bal := p } (fun v => { v with bal := p }) ho.2.1
-            ⟨ho.2.2.1.origin, ho.2.2.1.code, ho.2.2.1.codeEq, ho.2.2.1.live, ho.2.2.1.nd, ho.2.2.1.dc⟩ rfl
-          refine ⟨⟨hm.1.objs, hm.1.nodup, hm.1.store⟩, ⟨hm.2.2.store, ?_, hm.2.2.revisions, hm.2.2.nextRev, hm.2.2.thash⟩, hm.2.1⟩
-          show j.entries = s.journal.entries
-          rw [addDirty_entries _ _ _ hj, hs.2.1.journal]
+        simp only [Option.some.injEq] at h
+        subst h
+        have hm := modObj_abs s s1 hc a o hg { o with bal := p } (fun v => { v with bal := p }) ho.2.1
+          ⟨ho.2.2.1.origin, ho.2.2.1.code, ho.2.2.1.codeEq, ho.2.2.1.live, ho.2.2.1.nd, ho.2.2.1.dc, ho.2.2.1.dho⟩ rfl
+        exact ⟨hm.1, revFrame_of_sameBut hm.2.2, hm.2.1⟩
   | nonce a p =>
     simp only [Impl.revertEntry] at h
     cases hg : s.getObj a with
@@ -504,7 +715,7 @@ theorem revertEntry_abs (s s' : Impl) (e : Entry) (hc : CInv s) (he : EntryStati
         simp only [Option.some.injEq] at h
         subst h
         have hm := modObj_abs s s1 hc a o hg { o with nonce := p } (fun v => { v with nonce := p }) ho.2.1
-          ⟨ho.2.2.1.origin, ho.2.2.1.code, ho.2.2.1.codeEq, ho.2.2.1.live, ho.2.2.1.nd, ho.2.2.1.dc⟩ rfl
+          ⟨ho.2.2.1.origin, ho.2.2.1.code, ho.2.2.1.codeEq, ho.2.2.1.live, ho.2.2.1.nd, ho.2.2.1.dc, ho.2.2.1.dho⟩ rfl
         exact ⟨hm.1, revFrame_of_sameBut hm.2.2, hm.2.1⟩
   | storage a k p =>
     simp only [Impl.revertEntry] at h
@@ -518,8 +729,11 @@ theorem revertEntry_abs (s s' : Impl) (e : Entry) (hc : CInv s) (he : EntryStati
         have ho := hs.2.2.2.2 o rfl
         simp only [Option.some.injEq] at h
         subst h
+        have hko : (alookup k o.origin).isSome := by
+          have h1 := getObj_okOf s s1 hc a (some o) hg a k hsup
+          rw [okOf_cached s1 a o k ho.1] at h1; exact h1
         have hm := modObj_abs s s1 hc a o hg (o.setStateRaw k p) (fun v => { v with stor := updF v.stor k p }) ho.2.1
-          (objOK_setStateRaw _ _ _ _ ho.2.2.1) (viewObj_setStateRaw _ _ _ _)
+          (objOK_setStateRaw _ _ _ _ ho.2.2.1 hko) (viewObj_setStateRaw _ _ _ _)
         exact ⟨hm.1, revFrame_of_sameBut hm.2.2, hm.2.1⟩
   | code a pc ph =>
     simp only [Impl.revertEntry] at h
@@ -539,7 +753,7 @@ theorem revertEntry_abs (s s' : Impl) (e : Entry) (hc : CInv s) (he : EntryStati
           simp only [Obj.getCode, Obj.setCodeRaw]
           by_cases hz : pc = 0 <;> simp [hz]
         have hm := modObj_abs s s1 hc a o hg (o.setCodeRaw pc pc) (fun v => { v with code := pc, hash := pc }) ho.2.1
-          ⟨ho.2.2.1.origin, hgc, fun _ => rfl, ho.2.2.1.live, ho.2.2.1.nd, fun _ => rfl⟩ (by simp only [viewObj, hgc]; rfl)
+          ⟨ho.2.2.1.origin, hgc, fun _ => rfl, ho.2.2.1.live, ho.2.2.1.nd, fun _ => rfl, ho.2.2.1.dho⟩ (by simp only [viewObj, hgc]; rfl)
         exact ⟨hm.1, revFrame_of_sameBut hm.2.2, hm.2.1⟩
   | refund p =>
     simp only [Impl.revertEntry, Option.some.injEq] at h
@@ -589,11 +803,25 @@ theorem revertEntry_abs (s s' : Impl) (e : Entry) (hc : CInv s) (he : EntryStati
   | alAddr a =>
     simp only [Impl.revertEntry, Option.some.injEq] at h
     subst h
-    exact ⟨⟨hc.objs, hc.nodup, hc.store⟩, ⟨rfl, rfl, rfl, rfl, rfl⟩, rfl⟩
+    refine ⟨⟨hc.objs, hc.nodup, hc.store⟩, ⟨rfl, rfl, rfl, rfl, rfl⟩, ?_⟩
+    have hcount : (fun b => (s.alAddrs.erase a).count b) = updF (fun b => s.alAddrs.count b) a (s.alAddrs.count a - 1) := by
+      funext b
+      by_cases hb : b = a
+      · subst hb; simp [updF, List.count_erase_self]
+      · simp [updF, hb, List.count_erase_of_ne hb]
+    simp only [absI, Entry.undo, hcount]
+    rfl
   | alSlot a k =>
     simp only [Impl.revertEntry, Option.some.injEq] at h
     subst h
-    exact ⟨⟨hc.objs, hc.nodup, hc.store⟩, ⟨rfl, rfl, rfl, rfl, rfl⟩, rfl⟩
+    refine ⟨⟨hc.objs, hc.nodup, hc.store⟩, ⟨rfl, rfl, rfl, rfl, rfl⟩, ?_⟩
+    have hcount : (fun p => (s.alSlots.erase (a, k)).count p) = updF (fun p => s.alSlots.count p) (a, k) (s.alSlots.count (a, k) - 1) := by
+      funext p
+      by_cases hp : p = (a, k)
+      · subst hp; simp [updF, List.count_erase_self]
+      · simp [updF, hp, List.count_erase_of_ne hp]
+    simp only [absI, Entry.undo, hcount]
+    rfl
 
 /-! ## the revert loop -/
 
@@ -605,8 +833,109 @@ theorem entriesOK_append {st : Store} {l1 l2 : List Entry} : EntriesOK st (l1 ++
     | inl h1 => exact h.1 e h1
     | inr h2 => exact h.2 e h2
 
+theorem okOf_modObj (s s1 : Impl) (hc : CInv s) (a : Addr) (o : Obj) (hg : s.getObj a = (s1, some o)) (o' : Obj)
+    (haddr : o'.addr = a) (horig : o'.origin = o.origin) :
+    ∀ b k, s.okOf b k = true → (s1.setObj o').okOf b k = true := by
+  intro b k hb
+  have h1 := getObj_okOf s s1 hc a (some o) hg b k hb
+  have ho := (getObj_spec s hc a s1 (some o) hg).2.2.2.2 o rfl
+  rw [okOf_setObj]
+  by_cases hba : b = o'.addr
+  · simp only [hba, if_true, horig]
+    rw [hba, haddr, okOf_cached s1 a o k ho.1] at h1; exact h1
+  · simp only [hba, if_false]; exact h1
+
+theorem revertEntry_okOf (s s' : Impl) (e : Entry) (hc : CInv s) (h : s.revertEntry e = some s') :
+    ∀ b k, undoF e s.okOf b k = true → s'.okOf b k = true := by
+  have hmod : ∀ a (f : Obj → Obj), (∀ o, (f o).addr = o.addr ∧ (f o).origin = o.origin) →
+      (match s.getObj a with | (_, none) => none | (s1, some o) => some (s1.setObj (f o))) = some s' →
+      ∀ b k, s.okOf b k = true → s'.okOf b k = true := by
+    intro a f hf hm
+    cases hg : s.getObj a with
+    | mk s1 ro =>
+      simp only [hg] at hm
+      cases ro with
+      | none => simp at hm
+      | some o =>
+        simp only [Option.some.injEq] at hm
+        subst hm
+        have ho := (getObj_spec s hc a s1 (some o) hg).2.2.2.2 o rfl
+        exact okOf_modObj s s1 hc a o hg (f o) ((hf o).1.trans ho.2.1) (hf o).2
+  cases e with
+  | createObject a =>
+    simp only [Impl.revertEntry, Option.some.injEq] at h
+    subst h
+    intro b k hb
+    simp only [undoF, updF] at hb
+    by_cases hba : b = a
+    · simp [hba] at hb
+    · simp only [hba, if_false] at hb
+      simpa [Impl.okOf, alookup_aerase, hba] using hb
+  | resetObject prev =>
+    simp only [Impl.revertEntry, Option.some.injEq] at h
+    subst h
+    intro b k hb
+    rw [okOf_setObj]
+    simp only [undoF, updF] at hb
+    by_cases hba : b = prev.addr
+    · simp only [hba, if_true] at hb ⊢; exact hb
+    · simp only [hba, if_false] at hb ⊢; exact hb
+  | suicide a p pb =>
+    simp only [Impl.revertEntry] at h
+    cases hg : s.getObj a with
+    | mk s1 ro =>
+      simp only [hg] at h
+      cases ro with
+      | none =>
+        simp only [Option.some.injEq] at h; subst h
+        exact getObj_okOf s s1 hc a none hg
+      | some o =>
+        simp only [Option.some.injEq] at h; subst h
+        have ho := (getObj_spec s hc a s1 (some o) hg).2.2.2.2 o rfl
+        exact okOf_modObj s s1 hc a o hg _ ho.2.1 rfl
+  | balance a p => exact hmod a (fun o => { o with bal := p }) (fun _ => ⟨rfl, rfl⟩) h
+  | nonce a p => exact hmod a (fun o => { o with nonce := p }) (fun _ => ⟨rfl, rfl⟩) h
+  | storage a k p => exact hmod a (fun o => o.setStateRaw k p) (fun _ => ⟨rfl, rfl⟩) h
+  | code a pc ph => exact hmod a (fun o => o.setCodeRaw ph pc) (fun _ => ⟨rfl, rfl⟩) h
+  | refund p => simp only [Impl.revertEntry, Option.some.injEq] at h; subst h; intro b k hb; exact hb
+  | addLog hh =>
+    simp only [Impl.revertEntry] at h
+    cases hlk : alookup hh s.logs with
+    | none => simp [hlk] at h
+    | some l =>
+      simp only [hlk] at h
+      by_cases h0 : l.length = 0
+      · simp [h0] at h
+      · simp only [h0, if_false] at h
+        by_cases h1 : l.length = 1
+        · simp only [h1, if_true, Option.some.injEq] at h; subst h; intro b k hb; exact hb
+        · simp only [h1, if_false, Option.some.injEq] at h; subst h; intro b k hb; exact hb
+  | touch a => simp only [Impl.revertEntry, Option.some.injEq] at h; subst h; intro b k hb; exact hb
+  | alAddr a => simp only [Impl.revertEntry, Option.some.injEq] at h; subst h; intro b k hb; exact hb
+  | alSlot a k => simp only [Impl.revertEntry, Option.some.injEq] at h; subst h; intro b k hb; exact hb
+
+theorem undoLast_okOf (s s' : Impl) (hc : CInv s) (pre : List Entry) (e : Entry)
+    (hsplit : s.journal.entries = pre ++ [e]) (h : s.undoLast = some s') :
+    ∀ b k, undoF e s.okOf b k = true → s'.okOf b k = true := by
+  unfold Impl.undoLast at h
+  have hl : s.journal.entries.getLast? = some e := by rw [hsplit]; simp
+  simp only [hl] at h
+  cases hr : s.revertEntry e with
+  | none => simp [hr] at h
+  | some s1 =>
+    simp only [hr, Option.some.injEq] at h
+    subst h
+    exact revertEntry_okOf s s1 e hc hr
+
+theorem undoLast_ook (s s' : Impl) (hc : CInv s) (pre : List Entry) (e : Entry)
+    (hsplit : s.journal.entries = pre ++ [e]) (h : s.undoLast = some s')
+    (hook : OOK s.okOf s.journal.entries.reverse) : EntrySupp s.okOf e ∧ OOK s'.okOf pre.reverse := by
+  rw [hsplit, List.reverse_append] at hook
+  exact ⟨hook.1, OOK_mono _ (undoLast_okOf s s' hc pre e hsplit h) hook.2⟩
+
 theorem undoLast_abs (s s' : Impl) (hc : CInv s) (pre : List Entry) (e : Entry)
-    (hsplit : s.journal.entries = pre ++ [e]) (he : EntryStatic s.store e) (h : s.undoLast = some s') :
+    (hsplit : s.journal.entries = pre ++ [e]) (he : EntryStatic s.store e) (hsup : EntrySupp s.okOf e)
+    (h : s.undoLast = some s') :
     CInv s' ∧ s'.store = s.store ∧ s'.journal.entries = pre ∧ s'.revisions = s.revisions ∧
     s'.nextRev = s.nextRev ∧ s'.thash = s.thash ∧ absI s' = e.undo s.store (absI s) := by
   unfold Impl.undoLast at h
@@ -616,25 +945,23 @@ theorem undoLast_abs (s s' : Impl) (hc : CInv s) (pre : List Entry) (e : Entry)
   | none => simp [hr] at h
   | some s1 =>
     simp only [hr] at h
-    have hra := revertEntry_abs s s1 e hc he hr
-    cases hu : s1.journal.undirty e with
-    | none => simp [hu] at h
-    | some j =>
-      simp only [hu, Option.some.injEq] at h
-      subst h
-      refine ⟨⟨hra.1.objs, hra.1.nodup, hra.1.store⟩, hra.2.1.store, ?_, hra.2.1.revisions, hra.2.1.nextRev, hra.2.1.thash, ?_⟩
-      · show s.journal.entries.dropLast = pre
-        rw [hsplit]; simp
-      · rw [← hra.2.2]; rfl
+    have hra := revertEntry_abs s s1 e hc he hsup hr
+    simp only [Option.some.injEq] at h
+    subst h
+    refine ⟨⟨hra.1.objs, hra.1.nodup, hra.1.store⟩, hra.2.1.store, ?_, hra.2.1.revisions, hra.2.1.nextRev, hra.2.1.thash, ?_⟩
+    · show s.journal.entries.dropLast = pre
+      rw [hsplit]; simp
+    · rw [← hra.2.2]; rfl
 
 theorem revertTo_abs (n : Nat) : ∀ (s s' : Impl) (snap : Nat), CInv s → EntriesOK s.store s.journal.entries →
+    OOK s.okOf s.journal.entries.reverse →
     snap ≤ s.journal.entries.length → s.journal.entries.length ≤ snap + n → s.revertTo snap n = some s' →
     CInv s' ∧ s'.store = s.store ∧ s'.journal.entries = s.journal.entries.take snap ∧ s'.revisions = s.revisions ∧
     s'.nextRev = s.nextRev ∧ s'.thash = s.thash ∧
     absI s' = undoAbs s.store ((s.journal.entries.drop snap).reverse) (absI s) := by
   induction n with
   | zero =>
-    intro s s' snap hc _ hle hn h
+    intro s s' snap hc _ _ hle hn h
     simp only [Impl.revertTo, Option.some.injEq] at h
     subst h
     have : s.journal.entries.length = snap := by omega
@@ -642,7 +969,7 @@ theorem revertTo_abs (n : Nat) : ∀ (s s' : Impl) (snap : Nat), CInv s → Entr
     · rw [← this]; simp
     · rw [← this]; simp [undoAbs]
   | succ n ih =>
-    intro s s' snap hc hes hle hn h
+    intro s s' snap hc hes hook hle hn h
     simp only [Impl.revertTo] at h
     by_cases hlen : s.journal.entries.length ≤ snap
     · simp only [hlen, if_true, Option.some.injEq] at h
@@ -663,9 +990,10 @@ theorem revertTo_abs (n : Nat) : ∀ (s s' : Impl) (snap : Nat), CInv s → Entr
       | none => simp [hu] at h
       | some s1 =>
         simp only [hu] at h
-        have hua := undoLast_abs s s1 hc pre e hsplit (hes'.2 e (by simp)) hu
+        have hok := undoLast_ook s s1 hc pre e hsplit hu hook
+        have hua := undoLast_abs s s1 hc pre e hsplit (hes'.2 e (by simp)) hok.1 hu
         have hlen' : s.journal.entries.length = pre.length + 1 := by rw [hsplit]; simp
-        have hr := ih s1 s' snap hua.1 (by rw [hua.2.1, hua.2.2.1]; exact hes'.1)
+        have hr := ih s1 s' snap hua.1 (by rw [hua.2.1, hua.2.2.1]; exact hes'.1) (by rw [hua.2.2.1]; exact hok.2)
           (by rw [hua.2.2.1]; omega) (by rw [hua.2.2.1]; omega) h
         refine ⟨hr.1, hr.2.1.trans hua.2.1, ?_, hr.2.2.2.1.trans hua.2.2.2.1, hr.2.2.2.2.1.trans hua.2.2.2.2.1,
           hr.2.2.2.2.2.1.trans hua.2.2.2.2.2.1, ?_⟩
@@ -673,6 +1001,196 @@ theorem revertTo_abs (n : Nat) : ∀ (s s' : Impl) (snap : Nat), CInv s → Entr
         · rw [hr.2.2.2.2.2.2, hua.2.1, hua.2.2.1, hua.2.2.2.2.2.2, hsplit,
             List.drop_append_of_le_length (by omega), List.reverse_append]
           rfl
+
+/-! ### the revert loop never fails -/
+
+theorem revertEntry_total (s : Impl) (e : Entry) (hc : CInv s) (hl : EntryLive (absI s) e) :
+    ∃ s', s.revertEntry e = some s' := by
+  have hobj : ∀ a, ((absI s).acct a).isSome → ∃ s1 o, s.getObj a = (s1, some o) := by
+    intro a ha
+    cases hg : s.getObj a with
+    | mk s1 ro =>
+      cases ro with
+      | some o => exact ⟨s1, o, rfl⟩
+      | none =>
+        have := (getObj_spec s hc a s1 none hg).2.2.2.1 rfl
+        have ha' : (s.view a).isSome := ha
+        rw [this] at ha'; cases ha'
+  cases e with
+  | createObject a => exact ⟨_, rfl⟩
+  | resetObject p => exact ⟨_, rfl⟩
+  | suicide a p pb =>
+    simp only [Impl.revertEntry]
+    cases hg : s.getObj a with
+    | mk s1 ro => cases ro <;> exact ⟨_, rfl⟩
+  | balance a p =>
+    obtain ⟨s1, o, hg⟩ := hobj a hl
+    simp only [Impl.revertEntry, hg]
+    exact ⟨_, rfl⟩
+  | nonce a p =>
+    obtain ⟨s1, o, hg⟩ := hobj a hl
+    simp only [Impl.revertEntry, hg]
+    exact ⟨_, rfl⟩
+  | storage a k p =>
+    obtain ⟨s1, o, hg⟩ := hobj a hl
+    simp only [Impl.revertEntry, hg]
+    exact ⟨_, rfl⟩
+  | code a pc ph =>
+    obtain ⟨s1, o, hg⟩ := hobj a hl
+    simp only [Impl.revertEntry, hg]
+    exact ⟨_, rfl⟩
+  | refund p => exact ⟨_, rfl⟩
+  | addLog h =>
+    have hl' : (alookup h s.logs).getD [] ≠ [] := hl
+    simp only [Impl.revertEntry]
+    cases hlk : alookup h s.logs with
+    | none => rw [hlk] at hl'; exact absurd rfl hl'
+    | some l =>
+      rw [hlk] at hl'
+      have h0 : ¬ l.length = 0 := by
+        intro e; exact hl' (List.length_eq_zero_iff.mp e)
+      simp only [h0, if_false]
+      by_cases h1 : l.length = 1
+      · simp only [h1, if_true]; exact ⟨_, rfl⟩
+      · simp only [h1, if_false]; exact ⟨_, rfl⟩
+  | touch a => exact ⟨_, rfl⟩
+  | alAddr a => exact ⟨_, rfl⟩
+  | alSlot a k => exact ⟨_, rfl⟩
+
+theorem undoLast_total (s : Impl) (hc : CInv s) (pre : List Entry) (e : Entry)
+    (hsplit : s.journal.entries = pre ++ [e]) (hl : EntryLive (absI s) e) : ∃ s', s.undoLast = some s' := by
+  obtain ⟨s1, hr⟩ := revertEntry_total s e hc hl
+  have hlast : s.journal.entries.getLast? = some e := by rw [hsplit]; simp
+  simp only [Impl.undoLast, hlast, hr]
+  exact ⟨_, rfl⟩
+
+theorem undoLast_cnt (s s' : Impl) (pre : List Entry) (e : Entry) (hsplit : s.journal.entries = pre ++ [e])
+    (hc : CInv s) (he : EntryStatic s.store e) (h : s.undoLast = some s') (hcnt : JCnt s.journal) : JCnt s'.journal := by
+  unfold Impl.undoLast at h
+  have hl : s.journal.entries.getLast? = some e := by rw [hsplit]; simp
+  simp only [hl] at h
+  cases hr : s.revertEntry e with
+  | none => simp [hr] at h
+  | some s1 =>
+    simp only [hr, Option.some.injEq] at h
+    subst h
+    -- reverting an entry never touches the journal
+    have hj : s1.journal = s.journal := by
+      cases e with
+      | createObject a => simp only [Impl.revertEntry, Option.some.injEq] at hr; subst hr; rfl
+      | resetObject p => simp only [Impl.revertEntry, Option.some.injEq] at hr; subst hr; rfl
+      | suicide a p pb =>
+        simp only [Impl.revertEntry] at hr
+        cases hg : s.getObj a with
+        | mk sa ro =>
+          have hs := getObj_spec s hc a sa ro hg
+          simp only [hg] at hr
+          cases ro with
+          | none => simp only [Option.some.injEq] at hr; subst hr; exact hs.2.1.journal
+          | some o => simp only [Option.some.injEq] at hr; subst hr; exact hs.2.1.journal
+      | balance a p =>
+        simp only [Impl.revertEntry] at hr
+        cases hg : s.getObj a with
+        | mk sa ro =>
+          have hs := getObj_spec s hc a sa ro hg
+          simp only [hg] at hr
+          cases ro with
+          | none => simp at hr
+          | some o => simp only [Option.some.injEq] at hr; subst hr; exact hs.2.1.journal
+      | nonce a p =>
+        simp only [Impl.revertEntry] at hr
+        cases hg : s.getObj a with
+        | mk sa ro =>
+          have hs := getObj_spec s hc a sa ro hg
+          simp only [hg] at hr
+          cases ro with
+          | none => simp at hr
+          | some o => simp only [Option.some.injEq] at hr; subst hr; exact hs.2.1.journal
+      | storage a k p =>
+        simp only [Impl.revertEntry] at hr
+        cases hg : s.getObj a with
+        | mk sa ro =>
+          have hs := getObj_spec s hc a sa ro hg
+          simp only [hg] at hr
+          cases ro with
+          | none => simp at hr
+          | some o => simp only [Option.some.injEq] at hr; subst hr; exact hs.2.1.journal
+      | code a pc ph =>
+        simp only [Impl.revertEntry] at hr
+        cases hg : s.getObj a with
+        | mk sa ro =>
+          have hs := getObj_spec s hc a sa ro hg
+          simp only [hg] at hr
+          cases ro with
+          | none => simp at hr
+          | some o => simp only [Option.some.injEq] at hr; subst hr; exact hs.2.1.journal
+      | refund p => simp only [Impl.revertEntry, Option.some.injEq] at hr; subst hr; rfl
+      | addLog hh =>
+        simp only [Impl.revertEntry] at hr
+        cases hlk : alookup hh s.logs with
+        | none => simp [hlk] at hr
+        | some l =>
+          simp only [hlk] at hr
+          by_cases h0 : l.length = 0
+          · simp [h0] at hr
+          · simp only [h0, if_false] at hr
+            by_cases h1 : l.length = 1
+            · simp only [h1, if_true, Option.some.injEq] at hr; subst hr; rfl
+            · simp only [h1, if_false, Option.some.injEq] at hr; subst hr; rfl
+      | touch a => simp only [Impl.revertEntry, Option.some.injEq] at hr; subst hr; rfl
+      | alAddr a => simp only [Impl.revertEntry, Option.some.injEq] at hr; subst hr; rfl
+      | alSlot a k => simp only [Impl.revertEntry, Option.some.injEq] at hr; subst hr; rfl
+    show JCnt { s1.journal.undirty e with entries := s.journal.entries.dropLast }
+    have hd : s.journal.entries.dropLast = pre := by rw [hsplit]; simp
+    rw [hd, hj]
+    exact hcnt.pop pre e hsplit
+
+theorem revertTo_total (n : Nat) : ∀ (s : Impl) (snap : Nat), CInv s → EntriesOK s.store s.journal.entries →
+    JOK s.store (absI s) s.journal.entries.reverse → JCnt s.journal → OOK s.okOf s.journal.entries.reverse →
+    ∃ s', s.revertTo snap n = some s' ∧ JCnt s'.journal ∧
+      (snap ≤ s.journal.entries.length → s.journal.entries.length ≤ snap + n →
+        JOK s.store (absI s') (s.journal.entries.take snap).reverse ∧
+        OOK s'.okOf (s.journal.entries.take snap).reverse) := by
+  induction n with
+  | zero =>
+    intro s snap _ _ hjok hcnt hook
+    refine ⟨s, rfl, hcnt, ?_⟩
+    intro h1 h2
+    have : s.journal.entries.length = snap := by omega
+    rw [← this, List.take_length]; exact ⟨hjok, hook⟩
+  | succ n ih =>
+    intro s snap hc hes hjok hcnt hook
+    simp only [Impl.revertTo]
+    by_cases hlen : s.journal.entries.length ≤ snap
+    · simp only [hlen, if_true]
+      refine ⟨s, rfl, hcnt, ?_⟩
+      intro h1 _
+      have : s.journal.entries.length = snap := by omega
+      rw [← this, List.take_length]; exact ⟨hjok, hook⟩
+    · simp only [hlen, if_false]
+      have hne : s.journal.entries ≠ [] := by
+        intro h0; rw [h0] at hlen; simp at hlen
+      have hsplit : s.journal.entries = s.journal.entries.dropLast ++ [s.journal.entries.getLast hne] :=
+        (List.dropLast_concat_getLast hne).symm
+      generalize hpre : s.journal.entries.dropLast = pre at hsplit
+      generalize he : s.journal.entries.getLast hne = e at hsplit
+      have hes' := (entriesOK_append (st := s.store) (l1 := pre) (l2 := [e])).mp (hsplit ▸ hes)
+      have hjok' : EntryLive (absI s) e ∧ JOK s.store (e.undo s.store (absI s)) pre.reverse := by
+        rw [hsplit, List.reverse_append] at hjok
+        exact hjok
+      obtain ⟨s1, hu⟩ := undoLast_total s hc pre e hsplit hjok'.1
+      have hok := undoLast_ook s s1 hc pre e hsplit hu hook
+      have hua := undoLast_abs s s1 hc pre e hsplit (hes'.2 e (by simp)) hok.1 hu
+      have hcnt1 := undoLast_cnt s s1 pre e hsplit hc (hes'.2 e (by simp)) hu hcnt
+      obtain ⟨s', hr, hc', hj'⟩ := ih s1 snap hua.1 (by rw [hua.2.1, hua.2.2.1]; exact hes'.1)
+        (by rw [hua.2.1, hua.2.2.1, hua.2.2.2.2.2.2]; exact hjok'.2) hcnt1 (by rw [hua.2.2.1]; exact hok.2)
+      refine ⟨s', by simp only [hu]; exact hr, hc', ?_⟩
+      intro h1 h2
+      have hlen' : s.journal.entries.length = pre.length + 1 := by rw [hsplit]; simp
+      have := hj' (by rw [hua.2.2.1]; omega) (by rw [hua.2.2.1]; omega)
+      rw [hua.2.1, hua.2.2.1] at this
+      rw [hsplit, List.take_append_of_le_length (by omega)]
+      exact this
 
 /-! ## the simulation relation -/
 
@@ -753,6 +1271,9 @@ structure Sim (s : Impl) (r : Ref) : Prop where
   idsSorted : (s.revisions.map (·.1)).Pairwise (· < ·)
   jSorted : (s.revisions.map (·.2)).Pairwise (· ≤ ·)
   sticky : r.sticky = []
+  jok : JOK s.store (absI s) s.journal.entries.reverse
+  cnt : JCnt s.journal
+  ook : OOK s.okOf s.journal.entries.reverse
 
 /-- an op that appends the entries `es` to the journal (possibly none) and moves both sides to
     the same new abstract world, from which undoing `es` leads back -/
@@ -763,9 +1284,11 @@ theorem Sim.journaled {s s' : Impl} {r : Ref} {w' : RWorld} (h : Sim s r) (es : 
     (habs : absI s' = absR w') (hundo : undoAbs s.store es.reverse (absI s') = absI s)
     (htouched : ∀ a, a ∈ w'.touched ↔ a ∈ r.cur.touched ∨ a ∈ es.filterMap Entry.dirtied)
     (htc : ∀ a, a ∉ w'.touched → w'.view a = s.store.view a)
-    (hnd : (akeys w'.accts).Nodup) :
+    (hnd : (akeys w'.accts).Nodup)
+    (hjok : JOK s.store (absI s') es.reverse) (hcnt : JCnt s'.journal)
+    (hook : OOK s'.okOf s'.journal.entries.reverse) :
     Sim s' (r.withCur w') := by
-  refine ⟨hc, ?_, habs, ?_, ?_, ?_, ?_, hnd, ?_, ?_, ?_, ?_, h.sticky⟩
+  refine ⟨hc, ?_, habs, ?_, ?_, ?_, ?_, hnd, ?_, ?_, ?_, ?_, h.sticky, ?_, hcnt, hook⟩
   · rw [hst, hje]; exact entriesOK_append.mpr ⟨h.entries, hes⟩
   · rw [hth]; exact h.thash
   · rw [hnr]; exact h.nextRev
@@ -785,6 +1308,8 @@ theorem Sim.journaled {s s' : Impl} {r : Ref} {w' : RWorld} (h : Sim s r) (es : 
   · rw [hrev, hnr]; exact h.idsLt
   · rw [hrev]; exact h.idsSorted
   · rw [hrev]; exact h.jSorted
+  · rw [hst, hje, List.reverse_append, JOK_append, hundo]
+    exact ⟨hjok, h.jok⟩
 
 /-! ## steps: an adapter state and a reference world reached from `s` / `r.cur` by journaled changes -/
 
@@ -801,21 +1326,27 @@ structure Step (s s1 : Impl) (r : Ref) (w1 : RWorld) (es : List Entry) : Prop wh
   touched : ∀ a, a ∈ w1.touched ↔ a ∈ r.cur.touched ∨ a ∈ es.filterMap Entry.dirtied
   tc : ∀ a, a ∉ w1.touched → w1.view a = s.store.view a
   nodup : (akeys w1.accts).Nodup
+  jok : JOK s.store (absI s1) es.reverse
+  cnt : JCnt s1.journal
+  ook : OOK s1.okOf s1.journal.entries.reverse
 
 theorem Sim.step {s s1 : Impl} {r : Ref} {w1 : RWorld} {es : List Entry} (h : Sim s r) (st : Step s s1 r w1 es) :
     Sim s1 (r.withCur w1) :=
   h.journaled es st.cinv st.store st.entries st.revisions st.nextRev st.thash st.static st.abs st.undo
-    st.touched st.tc st.nodup
+    st.touched st.tc st.nodup st.jok st.cnt st.ook
 
 theorem Step.refl {s : Impl} {r : Ref} (h : Sim s r) : Step s s r r.cur [] :=
-  ⟨h.cinv, rfl, (by simp), rfl, rfl, rfl, (by intro e he; cases he), h.abs, rfl, (by simp), h.tc, h.nodup⟩
+  ⟨h.cinv, rfl, (by simp), rfl, rfl, rfl, (by intro e he; cases he), h.abs, rfl, (by simp), h.tc, h.nodup, trivial, h.cnt, h.ook⟩
 
 /-- caching an object (or any change that keeps the abstract world) -/
 theorem Step.sameAbs {s s1 s2 : Impl} {r : Ref} {w1 : RWorld} {es : List Entry} (st : Step s s1 r w1 es)
-    (hc : CInv s2) (hsb : SameBut s1 s2) (hv : s2.view = s1.view) : Step s s2 r w1 es :=
+    (hc : CInv s2) (hsb : SameBut s1 s2) (hv : s2.view = s1.view)
+    (hmono : ∀ a k, s1.okOf a k = true → s2.okOf a k = true) : Step s s2 r w1 es :=
   ⟨hc, hsb.store.trans st.store, by rw [hsb.journal]; exact st.entries, hsb.revisions.trans st.revisions,
    hsb.nextRev.trans st.nextRev, hsb.thash.trans st.thash, st.static,
-   (absI_of_sameBut hsb hv).trans st.abs, by rw [absI_of_sameBut hsb hv]; exact st.undo, st.touched, st.tc, st.nodup⟩
+   (absI_of_sameBut hsb hv).trans st.abs, by rw [absI_of_sameBut hsb hv]; exact st.undo, st.touched, st.tc, st.nodup,
+   by rw [absI_of_sameBut hsb hv]; exact st.jok, by rw [hsb.journal]; exact st.cnt,
+   by rw [hsb.journal]; exact OOK_mono _ hmono st.ook⟩
 
 /-! ### the reference side -/
 
@@ -863,7 +1394,7 @@ theorem viewObj_fresh (st : Store) (hs : StoreOK st) (a : Addr) (h : st.view a =
   · funext k; simp [RAcct.cslot, hz]
 
 theorem objOK_fresh (st : Store) (a : Addr) (b : Nat) : ObjOK st (Obj.fresh a b) :=
-  ⟨by intro k v h; simp [Obj.fresh] at h, by simp [Obj.getCode, Obj.fresh], by simp [Obj.fresh], rfl, by simp [Obj.fresh, akeys], by simp [Obj.fresh]⟩
+  ⟨by intro k v h; simp [Obj.fresh] at h, by simp [Obj.getCode, Obj.fresh], by simp [Obj.fresh], rfl, by simp [Obj.fresh, akeys], by simp [Obj.fresh], by intro k hk; simp [Obj.fresh] at hk⟩
 
 /-! ### getOrNew on both sides -/
 
@@ -891,7 +1422,7 @@ theorem getOrNew_spec {s s0 s1 : Impl} {r : Ref} {w0 : RWorld} {es : List Entry}
         have hgn : w0.getOrNew a = (w0, x) := by simp [RWorld.getOrNew, hw]
         rw [hgn]
         refine ⟨[], ?_, ho.1, ho.2.1, ?_, ?_, hw, ?_⟩
-        · rw [List.append_nil]; exact st.sameAbs hs.1 hs.2.1 hs.2.2.1
+        · rw [List.append_nil]; exact st.sameAbs hs.1 hs.2.1 hs.2.2.1 (getObj_okOf s0 _ st.cinv a _ hgo)
         · rw [← st.store]; exact ho.2.2.1
         · rw [← st.store]; exact hv
         · exact hs.2.1.toRest
@@ -945,7 +1476,12 @@ theorem getOrNew_spec {s s0 s1 : Impl} {r : Ref} {w0 : RWorld} {es : List Entry}
               rfl
             refine ⟨[Entry.createObject a], ?_, by simp [Impl.setObj, Obj.fresh], rfl, objOK_fresh _ _ _, hvf,
               by simp [RWorld.get, RWorld.put], ?_⟩
-            · refine ⟨setObj_cinv sc hcc _ hfok, ?_, ?_, ?_, ?_, ?_, ?_, habs, ?_, ?_, ?_, ?_⟩
+            have hundoC : Entry.undo s.store (Entry.createObject a) (absI (sc.setObj (Obj.fresh a 0))) = absI s0 := by
+              rw [habs, absR_put, ← st.abs]
+              simp only [Entry.undo, updF_updF]
+              have : (absI s0).acct a = none := hvn
+              rw [← this, updF_self]
+            · refine ⟨setObj_cinv sc hcc _ hfok, ?_, ?_, ?_, ?_, ?_, ?_, habs, ?_, ?_, ?_, ?_, ?_, ?_, ?_⟩
               · show sc.store = s.store
                 rw [hjs.2.2.1]; exact hstore
               · show sc.journal.entries = _
@@ -973,6 +1509,23 @@ theorem getOrNew_spec {s s0 s1 : Impl} {r : Ref} {w0 : RWorld} {es : List Entry}
                 rw [RWorld.view_put, updF_ne _ _ _ _ hb.2]
                 exact st.tc b hb.1
               · exact nodup_akeys_upsert _ _ _ st.nodup
+              · rw [List.reverse_append]
+                show JOK s.store _ (Entry.createObject a :: es.reverse)
+                exact ⟨trivial, by rw [hundoC]; exact st.jok⟩
+              · show JCnt sc.journal
+                rw [jappend_journal sb sc _ hj, hsb.journal]
+                exact st.cnt.append _
+              · show OOK (sc.setObj (Obj.fresh a 0)).okOf sc.journal.entries.reverse
+                rw [hjs.1, hsb.journal, List.reverse_append]
+                refine ⟨trivial, OOK_mono _ ?_ st.ook⟩
+                intro b k hb
+                have hb1 := getObj_okOf sa sb hs.1 a _ hgo2 b k (getObj_okOf s0 sa st.cinv a _ hgo b k hb)
+                simp only [undoF, updF]
+                by_cases hba : b = a
+                · subst hba
+                  simp [Impl.okOf, hun.1] at hb
+                · simp only [hba, if_false, okOf_setObj, Obj.fresh]
+                  simpa [Impl.okOf, hjs.2.1] using hb1
             · exact (hsb.toRest.trans (jappend_sameRest sb sc _ hj)).trans (setObj_sameRest sc _)
 
 /-! ### appending several entries, then replacing the object of one address -/
@@ -1009,13 +1562,29 @@ theorem jappends_cinv (el : List Entry) (s s1 : Impl) (h : s.jappends el = some 
   · rw [hs.2.1]; exact hc.nodup
   · rw [hs.2.2.store]; exact hc.store
 
+theorem jappends_cnt : ∀ (el : List Entry) (s s1 : Impl), s.jappends el = some s1 → JCnt s.journal → JCnt s1.journal := by
+  intro el
+  induction el with
+  | nil => intro s s1 h hc; simp [Impl.jappends] at h; subst h; exact hc
+  | cons e t ih =>
+    intro s s1 h hc
+    simp only [Impl.jappends] at h
+    cases hj : s.jappend e with
+    | none => simp [hj] at h
+    | some s2 =>
+      simp only [hj, Option.bind_some] at h
+      exact ih s2 s1 h (by rw [jappend_journal s s2 e hj]; exact hc.append e)
+
 theorem Step.mutate {s s1 s2 : Impl} {r : Ref} {w1 : RWorld} {es : List Entry} (st : Step s s1 r w1 es)
     (a : Addr) (o : Obj) (hacct : s1.view a = some (viewObj s.store o))
     (el : List Entry) (hj : s1.jappends el = some s2)
     (hd : ∀ b, b ∈ el.filterMap Entry.dirtied ↔ b = a) (hstatic : EntriesOK s.store el)
     (o' : Obj) (x' : RAcct) (haddr : o'.addr = a) (hok : ObjOK s.store o') (hview' : viewObj s.store o' = viewR x')
     (hundo : ∀ W : AW, undoAbs s.store el.reverse { W with acct := updF W.acct a (some (viewObj s.store o')) } =
-        { W with acct := updF W.acct a (some (viewObj s.store o)) }) :
+        { W with acct := updF W.acct a (some (viewObj s.store o)) })
+    (hlive : ∀ W : AW, JOK s.store { W with acct := updF W.acct a (some (viewObj s.store o')) } el.reverse)
+    (hook : OOK (fun b k => if b = a then (alookup k o'.origin).isSome else s1.okOf b k)
+      (el.reverse ++ s1.journal.entries.reverse)) :
     Step s (s2.setObj o') r (w1.put a x') (es ++ el) := by
   have hjs := jappends_spec el s1 s2 hj
   have hst2 : s2.store = s.store := hjs.2.2.store.trans st.store
@@ -1023,7 +1592,8 @@ theorem Step.mutate {s s1 s2 : Impl} {r : Ref} {w1 : RWorld} {es : List Entry} (
   have habs2 : absI s2 = absI s1 := absI_of_sameRest hjs.2.2 (jappends_view el s1 s2 hj)
   have habs : absI (s2.setObj o') = absR (w1.put a x') := by
     rw [absI_setObj s2 o' hok.live, absR_put, habs2, st.abs, haddr, hst2, hview']
-  refine ⟨setObj_cinv s2 hc2 o' (by rw [hst2]; exact hok), hst2, ?_, ?_, ?_, ?_, ?_, habs, ?_, ?_, ?_, ?_⟩
+  have hacct' : (absI s1).acct a = some (viewObj s.store o) := hacct
+  refine ⟨setObj_cinv s2 hc2 o' (by rw [hst2]; exact hok), hst2, ?_, ?_, ?_, ?_, ?_, habs, ?_, ?_, ?_, ?_, ?_, ?_, ?_⟩
   · show s2.journal.entries = _
     rw [hjs.1, st.entries, List.append_assoc]
   · exact hjs.2.2.revisions.trans st.revisions
@@ -1041,6 +1611,39 @@ theorem Step.mutate {s s1 s2 : Impl} {r : Ref} {w1 : RWorld} {es : List Entry} (
     rw [RWorld.view_put, updF_ne _ _ _ _ hb.2]
     exact st.tc b hb.1
   · exact nodup_akeys_upsert _ _ _ st.nodup
+  · rw [List.reverse_append, JOK_append, absI_setObj s2 o' hok.live, habs2, haddr, hst2, hundo]
+    refine ⟨hlive _, ?_⟩
+    rw [← hacct', updF_self]
+    exact st.jok
+  · show JCnt s2.journal
+    exact jappends_cnt el s1 s2 hj st.cnt
+  · show OOK (s2.setObj o').okOf s2.journal.entries.reverse
+    rw [hjs.1, List.reverse_append]
+    refine OOK_mono _ ?_ hook
+    intro b k hb
+    rw [okOf_setObj, haddr]
+    by_cases hba : b = a
+    · simp only [hba, if_true] at hb ⊢; exact hb
+    · simp only [hba, if_false] at hb ⊢
+      simpa [Impl.okOf, hjs.2.1] using hb
+
+/-- the usual case of `Step.mutate`'s last hypothesis: plain entries, the new object keeps the
+    cached originals of the one it replaces, storage entries are about cached slots -/
+theorem ook_plain_mutate {s1 : Impl} (a : Addr) (o o' : Obj) (el : List Entry)
+    (hobj : alookup a s1.objs = some o)
+    (horig : ∀ k, (alookup k o.origin).isSome = true → (alookup k o'.origin).isSome = true)
+    (hel : ∀ e ∈ el, e.plain = true ∧
+      EntrySupp (fun b k => if b = a then (alookup k o'.origin).isSome else s1.okOf b k) e)
+    (hook : OOK s1.okOf s1.journal.entries.reverse) :
+    OOK (fun b k => if b = a then (alookup k o'.origin).isSome else s1.okOf b k)
+      (el.reverse ++ s1.journal.entries.reverse) := by
+  refine OOK_plain el.reverse _ _ (fun e he => hel e (List.mem_reverse.mp he)) (OOK_mono _ ?_ hook)
+  intro b k hb
+  by_cases hba : b = a
+  · simp only [hba, if_true]
+    rw [hba, okOf_cached s1 a o k hobj] at hb
+    exact horig k hb
+  · simp only [hba, if_false]; exact hb
 
 /-- undoing a single field-restoring entry -/
 theorem undo_mod (st : Store) (e : Entry) (a : Addr) (f : AView → AView) (v v' : AView)
